@@ -7,7 +7,7 @@
 From Coq Require Import List NArith ZArith Bool Permutation.
 From BE Require Model.Rr.
 From BE Require Import Model.Scan Model.Build Proofs.ScanProof Proofs.BuildProof Proofs.Glue.
-From BE Require Model.GoVal Model.Parsers Model.Index Model.Roaring Proofs.IndexBuildInv Proofs.IndexCorrect Proofs.AgreeProof Proofs.RoaringProof Gen.IdsGen.
+From BE Require Model.GoVal Model.Parsers Model.Index Model.Roaring Proofs.IndexBuildInv Proofs.IndexCorrect Proofs.AgreeProof Proofs.RoaringProof Gen.IdsGen Model.Spec Proofs.SpecBridge Proofs.HoldersBuildInv Proofs.IndexCorrectHolders Proofs.SpecBridgeHolders Proofs.IndexCorrectPolicy Proofs.SpecBridgeHoldersPolicy Proofs.AgreeFull.
 Import ListNotations.
 Local Open Scope N_scope.
 
@@ -62,8 +62,39 @@ Theorem C18_roaring_exact_for_the_same_rule : forall b0 ds b os q s d k cj x,
   Roaring.bm_mem x (Roaring.sc_res s) = forallb (RoaringProof.conj_sat_field q cj) (Roaring.rb_conts b).
 Proof. exact RoaringProof.roaring_index_correct. Qed.
 
+(* AGREEMENT IN FULL for the two posting-list implementations: the same configuration (any container mix), the same
+   document list (rejected documents, unparseable conjunctions allowed), the same policy, the same assignment: the
+   same AddDocument outcomes and the same reported (document, position, size) triples (each is proved equal to the
+   specification; see Props/C01.v for the hypotheses).  The roaring implementation is proved equal to the same
+   specification in Props/C03.v (default and pattern containers). *)
+Theorem C18_kgroups_and_compact_agree_in_full : forall pol thr parsers cfgl sk sc ds stk osk stc osc q,
+  HoldersBuildInv.config_fields (Index.new_builder Index.IKGroups pol thr parsers) cfgl = Some sk ->
+  HoldersBuildInv.config_fields (Index.new_builder Index.ICompact pol thr parsers) cfgl = Some sc ->
+  Index.add_documents false sk ds = (stk, osk) ->
+  Index.add_documents false sc ds = (stc, osc) ->
+  NoDup (map Index.d_id ds) ->
+  (forall d cj, In d ds -> In cj (Index.d_conjs d) -> NoDup (map fst cj)) ->
+  (forall d, In d ds -> SpecBridgeHoldersPolicy.doc_ok parsers cfgl d) ->
+  IndexCorrectPolicy.sizes_ok ds ->
+  SpecBridgeHoldersPolicy.skip_ok2 pol (SpecBridgeHolders.cfg_fields parsers cfgl) parsers ds ->
+  ((- GoVal.two64 < thr)%Z \/
+   forall d cj, In d ds -> In cj (Index.d_conjs d) ->
+     Spec.conj_sem (SpecBridgeHolders.cfg_fields parsers cfgl) parsers cj <> None ->
+     HoldersBuildInv.conj_rwf thr (HoldersBuildInv.cfg_of cfgl) cj) ->
+  NoDup (map fst q) ->
+  SpecBridgeHolders.asg_good' parsers cfgl q ->
+  SpecBridgeHoldersPolicy.asg_dom_den parsers cfgl ds q ->
+  (forall f v, In (f, v) q -> HoldersBuildInv.cfg_of cfgl f = Index.CAc -> IndexCorrectHolders.nil_slice_wf v) ->
+  exists hk hc,
+    Index.retrieve_hits (Index.build_index stk) q = Index.ROk hk /\
+    Index.retrieve_hits (Index.build_index stc) q = Index.ROk hc /\
+    Permutation (map (fun h : Index.hitrec => SpecBridge.triple (snd h)) hk) (map (fun h : Index.hitrec => SpecBridge.triple (snd h)) hc) /\
+    osk = osc.
+Proof. exact AgreeFull.kgroups_compact_same_hits. Qed.
+
 Print Assumptions C18_kgroups_any_matcher.
 Print Assumptions C18_kgroups_and_compact_agree.
 Print Assumptions C18_roaring_exact_for_the_same_rule.
 Print Assumptions C18_compact_scan_any_streams.
 Print Assumptions C18_roaring_fold_any_order.
+Print Assumptions C18_kgroups_and_compact_agree_in_full.
